@@ -33,9 +33,11 @@ class Json(Engine):
             h = f[1]
             n = len(h) // 2
             size = max(1, n // 2)
-            while size >= 1:
+            while size >= 1 and len(out) < 1500:
                 for i in range(0, n, size):
                     out.append(f[0] + " " + ((h[: 2 * i] + h[2 * (i + size):]) or "-"))
+                    if len(out) >= 1500:
+                        break
                 size //= 2
         seen, res = set(), []
         for c in out:
